@@ -146,6 +146,7 @@ ZEROLIKE = {"zeros", "zeros_like", "empty", "empty_like", "full"}
 
 class KindInference:
     def __init__(self, source: Source, table: dict):
+        self.auto_attr = {}
         self.S = source
         self.ATTR = table.get("ATTR", {})
         self.ATTR_TYPE = dict(table.get("ATTR_TYPE", {}))
@@ -158,6 +159,8 @@ class KindInference:
         self._auto_attr_types()
 
     # ---- receiver types from annotations -----------------------------------
+    auto_attr: dict = {}
+
     def _auto_attr_types(self) -> None:
         known = {c for m in self.S.modules.values() for c in m.classes}
         for m in self.S.modules.values():
@@ -198,6 +201,10 @@ class KindInference:
                 return self.ATTR[(c, attr)]
             if (c, attr) in self.ATTR_TYPE:
                 return Obj(self.ATTR_TYPE[(c, attr)])
+        # an attribute the signature table does not know (a newly introduced cached value): the kind its constructor stores into it
+        for c in self._mro_names(cls):
+            if (c, attr) in self.auto_attr:
+                return self.auto_attr[(c, attr)]
         return UNK
 
     # ---- reporting -----------------------------------------------------------
@@ -360,6 +367,10 @@ class KindInference:
             base = self.dim(t.value, env, fi)
             if isinstance(base, Obj) and check:
                 want = self.attr_dim(base.cls, t.attr)
+                known = any((c_, t.attr) in self.ATTR or (c_, t.attr) in self.ATTR_TYPE for c_ in self._mro_names(base.cls))
+                if not known and fi.qual.endswith(".__init__") and isinstance(v, Dim) and (base.cls, t.attr) not in self.auto_attr:
+                    self.auto_attr[(base.cls, t.attr)] = v          # learnt from the constructor; later stores / uses are checked against it
+                    want = UNK
                 if isinstance(want, (Dim, tuple)):
                     self.check_sink(fi, st, v, want, f"store to {base.cls}.{t.attr}", f"store|{base.cls}.{t.attr}")
             d = dotted(t)
